@@ -19,6 +19,8 @@ pub struct PlanOpts {
     pub exhaustive_small: bool,
     /// decimal operands for plural counts (FixedDecimal), string/display back-ends only
     pub plural_decimals: bool,
+    /// `dynamic_load` builds: the string / display accessors return futures
+    pub async_strings: bool,
 }
 
 impl Default for PlanOpts {
@@ -31,6 +33,7 @@ impl Default for PlanOpts {
             max_counts: 24,
             exhaustive_small: false,
             plural_decimals: false,
+            async_strings: false,
         }
     }
 }
